@@ -171,6 +171,7 @@ pub struct Worker {
     pub n: u64,
     pub since_audit: u32,
     pub flags: Vec<u64>,
+    pub prep_cache: std::collections::HashMap<String, Prepared>,
 }
 
 thread_local! {
@@ -184,7 +185,22 @@ pub fn with_worker<R>(f: impl FnOnce(&mut Worker) -> R) -> R {
 
 impl Worker {
     pub fn new() -> Worker {
-        Worker { bench: Bench::new(0), m: Machine::new(), n: 0, since_audit: 0, flags: vec![0; 1024] }
+        Worker { bench: Bench::new(0), m: Machine::new(), n: 0, since_audit: 0, flags: vec![0; 1024], prep_cache: Default::default() }
+    }
+    /// take a prepared instruction out of this thread's cache (assembling it on first use);
+    /// give it back with `put_prepared`
+    pub fn take_prepared(&mut self, i: &Instr) -> Result<Prepared, PrepErr> {
+        let k = render_instr(i);
+        match self.prep_cache.remove(&k) {
+            Some(p) => Ok(p),
+            None => prepare(i),
+        }
+    }
+    pub fn put_prepared(&mut self, p: Prepared) {
+        if self.prep_cache.len() > 4096 {
+            self.prep_cache.clear();
+        }
+        self.prep_cache.insert(render_instr(&p.instr), p);
     }
     /// run one case, report mismatches
     pub fn case(
